@@ -192,7 +192,7 @@ Qed.
 Lemma pgs_items_ints_ok cur : exists r, pgs_items (map IInt cur) true = OK r.
 Proof.
   unfold pgs_items. destruct cur as [|z cur]; [cbn [map]; eauto|].
-  rewrite map_map. cbn [norm_item]. change (fun x : Z => IInt x) with IInt.
+  rewrite !map_map. cbn [norm_item prep_item norm_item_pgs]. change (fun x : Z => IInt x) with IInt.
   apply pgs_loop_ints_ok. rewrite forallb_forall. intros x Hx. apply in_map_iff in Hx as (y & <- & _). reflexivity.
 Qed.
 
@@ -336,7 +336,7 @@ Proof. intros H. cbn [scrub_form]. unfold scrub_int. apply Z.ltb_lt in H. now re
 (* a single integer: always its decimal text - also for a lone introducer 38/48/58 and for 0 *)
 Lemma pgs_single z : pgs_items [IInt z] true = OK [dec z].
 Proof.
-  unfold pgs_items. cbn [map norm_item norm_item_pgs pgs_loop intro_kind].
+  unfold pgs_items. cbn [map norm_item norm_item_pgs prep_item pgs_loop intro_kind].
   destruct (item_is_intro (IInt z)); cbn [andb bind app keep_group orb]; reflexivity.
 Qed.
 
@@ -371,12 +371,159 @@ Proof.
   intros H. rewrite (norm_digit c H). apply is_digit_spec in H. apply andb_false_iff. left. apply N.leb_gt. lia.
 Qed.
 
+(* ---------- which directive of a ';'-separated string is an integer code (as repaired, F37) ----------
+   With the surrounding blanks stripped, a NON-EMPTY string of DECIMAL DIGITS - and nothing else: no
+   sign, no digit-grouping underscore, no non-ASCII digit (all of which Python's int() would take). *)
+Definition decimal_code (f : str) : bool := negb (is_nil (strip_ws f)) && forallb is_digit (strip_ws f).
+(* ... and the code it stands for: the digits read in base ten (leading zeros allowed) *)
+Definition code_value (f : str) : Z := Z.of_N (dval (strip_ws f) 0).
+
+(* what scrub_names does with ONE directive *)
+Definition scrub_name1 (f : str) : res (list sitem) :=
+  match member_texts (norm_name f) with
+  | Some ts => OK (map SSet ts)
+  | None =>
+    match parse_rgb_string f with
+    | RTexts ts => OK (map SSet ts)
+    | RBad => Err ValueError
+    | RNoMatch =>
+      if is_nil f then OK []
+      else if decimal_code f then
+             match parse_int (strip_ws f) with
+             | Some z => do i <- scrub_int z; OK [i]
+             | None => Err ValueError end
+           else Err ValueError
+    end
+  end.
+
+Lemma scrub_names_cons f r :
+  scrub_names (f :: r) = do here <- scrub_name1 f; do rest <- scrub_names r; OK (here ++ rest).
+Proof. reflexivity. Qed.
+
+Lemma scrub_names_one f : scrub_names [f] = scrub_name1 f.
+Proof. rewrite scrub_names_cons. cbn [scrub_names bind]. apply bind_ret. Qed.
+
+Lemma decimal_code_spec f :
+  decimal_code f = true <-> strip_ws f <> [] /\ forallb is_digit (strip_ws f) = true.
+Proof.
+  unfold decimal_code. rewrite andb_true_iff. split; intros [H1 H2]; split; auto.
+  - intros E. rewrite E in H1. discriminate.
+  - destruct (strip_ws f); [congruence | reflexivity].
+Qed.
+
+Lemma decimal_code_nil : decimal_code [] = false.
+Proof. reflexivity. Qed.
+
+(* for the text of a code Python's int() - also of the unstripped text - and the digit reading agree *)
+Lemma parse_int_all_digits d : forallb is_digit d = true -> d <> [] -> parse_int d = Some (Z.of_N (dval d 0)).
+Proof.
+  intros Hd Hne. unfold parse_int. rewrite (strip_ws_digits _ Hd).
+  destruct d as [|c r] eqn:E; [congruence|].
+  assert (Hc : is_digit c = true) by (cbn [forallb] in Hd; now apply andb_true_iff in Hd as [? _]).
+  apply is_digit_spec in Hc.
+  replace (c =? CH_MINUS)%N with false by (symmetry; apply N.eqb_neq; unfold CH_MINUS; lia).
+  replace (c =? CH_PLUS)%N with false by (symmetry; apply N.eqb_neq; unfold CH_PLUS; lia).
+  rewrite (digits_val_digits (c :: r) 0%N Hd Hne false). reflexivity.
+Qed.
+
+Lemma decimal_code_parse f : decimal_code f = true ->
+  parse_int (strip_ws f) = Some (code_value f) /\ parse_int f = Some (code_value f).
+Proof.
+  intros H. apply decimal_code_spec in H as [Hne Hd].
+  assert (E : parse_int (strip_ws f) = Some (code_value f)) by now apply parse_int_all_digits.
+  split; [exact E|]. rewrite <- E. unfold parse_int. now rewrite (strip_ws_digits _ Hd).
+Qed.
+
+Lemma code_value_nonneg f : 0 <= code_value f.
+Proof. unfold code_value. lia. Qed.
+
+(* stripping keeps every character that is not a blank *)
+Lemma lstrip_keeps (s : str) x : In x s -> is_ws x = false -> In x (lstrip_ws s).
+Proof.
+  induction s as [|c s IH]; [intros []|]. intros Hin Hx. cbn [lstrip_ws].
+  destruct (is_ws c) eqn:Ec; [|exact Hin].
+  destruct Hin as [->|Hin]; [congruence | now apply IH].
+Qed.
+Lemma strip_keeps (s : str) x : In x s -> is_ws x = false -> In x (strip_ws s).
+Proof.
+  intros Hin Hx. unfold strip_ws. apply in_rev. rewrite rev_involutive.
+  apply lstrip_keeps; [|exact Hx]. apply -> in_rev. now apply lstrip_keeps.
+Qed.
+
+(* the characters a code may be written with: decimal digits, and blanks (around them) *)
+Definition code_char (x : char) : bool := is_digit x || is_ws x.
+
+Theorem decimal_code_chars s : decimal_code s = true -> forall x, In x s -> code_char x = true.
+Proof.
+  intros H x Hin. apply decimal_code_spec in H as [_ Hd]. unfold code_char.
+  destruct (is_ws x) eqn:Ews; [apply orb_true_r|]. rewrite orb_false_r.
+  rewrite forallb_forall in Hd. apply Hd. now apply strip_keeps.
+Qed.
+
+Corollary not_decimal_code s x : In x s -> code_char x = false -> decimal_code s = false.
+Proof.
+  intros Hin Hx. destruct (decimal_code s) eqn:E; [|reflexivity].
+  rewrite (decimal_code_chars s E x Hin) in Hx. discriminate.
+Qed.
+
+Lemma is_ws_cases c : is_ws c = true -> In c [32; 9; 10; 11; 12; 13; 28; 29; 30; 31; 133; 160]%N.
+Proof.
+  destruct c as [|p]; [discriminate|].
+  do 8 (try (destruct p as [p|p|]; try discriminate)); intros _; cbn [In]; tauto.
+Qed.
+
+Lemma code_char_props c : code_char c = true ->
+  ((65 <=? norm_name_char c) && (norm_name_char c <=? 90))%N = false /\ rgb_start c = false /\
+  (c =? LBR)%N = false /\ (SEMI =? c)%N = false.
+Proof.
+  unfold code_char. intros H. apply orb_true_iff in H as [H|H].
+  - pose proof (proj1 (is_digit_spec c) H) as Hr.
+    split; [now apply digit_not_upper|]. split; [now apply digit_not_rgb_start|].
+    split; apply N.eqb_neq; [unfold LBR | unfold SEMI]; lia.
+  - apply is_ws_cases in H. cbn [In] in H.
+    repeat (destruct H as [<-|H]; [repeat split; reflexivity|]). destruct H.
+Qed.
+
+(* a code is no member name and no rgb()/color256() string: it is always read as a code *)
+Lemma code_not_member f : decimal_code f = true -> member_texts (norm_name f) = None.
+Proof.
+  intros H. destruct f as [|c r]; [discriminate|]. apply not_member_first.
+  apply code_char_props. apply (decimal_code_chars _ H). now left.
+Qed.
+Lemma code_not_rgb f : decimal_code f = true -> parse_rgb_string f = RNoMatch.
+Proof.
+  intros H. destruct f as [|c r]; [discriminate|]. apply parse_rgb_nomatch_first.
+  apply code_char_props. apply (decimal_code_chars _ H). now left.
+Qed.
+
+Theorem scrub_name1_code f : decimal_code f = true -> scrub_name1 f = OK [SInt (code_value f)].
+Proof.
+  intros H. unfold scrub_name1. rewrite (code_not_member f H), (code_not_rgb f H), H.
+  destruct (decimal_code_parse f H) as [-> _].
+  destruct f as [|c r]; [discriminate|]. cbn [is_nil]. unfold scrub_int.
+  pose proof (code_value_nonneg (c :: r)) as Hz. apply Z.ltb_ge in Hz. rewrite Hz. reflexivity.
+Qed.
+
+(* everything else that is no name and no rgb()/color256() string with convertible numbers is refused *)
+Theorem scrub_name1_not_code f : f <> [] -> member_texts (norm_name f) = None ->
+  (forall ts, parse_rgb_string f <> RTexts ts) -> decimal_code f = false -> scrub_name1 f = Err ValueError.
+Proof.
+  intros Hne Hm Hr Hc. unfold scrub_name1. rewrite Hm, Hc.
+  destruct (parse_rgb_string f) as [| |ts]; [|reflexivity|now destruct (Hr ts)].
+  destruct f; [congruence | reflexivity].
+Qed.
+
+Lemma decimal_code_dec z : 0 <= z -> decimal_code (dec z) = true /\ code_value (dec z) = z.
+Proof.
+  intros H. assert (Hc : decimal_code (dec z) = true).
+  { apply decimal_code_spec. rewrite strip_ws_dec. split; [apply dec_not_nil | now apply dec_nonneg_digits]. }
+  split; [exact Hc|]. destruct (decimal_code_parse _ Hc) as [_ E]. rewrite parse_int_dec in E. congruence.
+Qed.
+
 Lemma scrub_names_dec z : 0 <= z -> scrub_names [dec z] = OK [SInt z].
 Proof.
-  intros H. destruct (dec_first_digit z H) as (c & r & E & Hc).
-  cbn [scrub_names]. rewrite E, (not_member_first c r (digit_not_upper c Hc)).
-  rewrite (parse_rgb_nomatch_first c r (digit_not_rgb_start c Hc)). cbn [is_nil].
-  rewrite <- E, parse_int_dec. unfold scrub_int. apply Z.ltb_ge in H. rewrite H. reflexivity.
+  intros H. destruct (decimal_code_dec z H) as [Hc Hv].
+  rewrite scrub_names_one, (scrub_name1_code _ Hc), Hv. reflexivity.
 Qed.
 
 Lemma scrub_string_nobr (c : char) (r : str) : (c =? LBR)%N = false -> scrub_string (c :: r) = scrub_names (split_char SEMI (c :: r)).
@@ -417,28 +564,7 @@ Proof. apply scrub_verbatim. discriminate. Qed.
 (* ====================================================================================== *)
 (* 2. ';'-separated directives in one string = the list of the directives                  *)
 (* ====================================================================================== *)
-Definition scrub_name1 (f : str) : res (list sitem) :=
-  match member_texts (norm_name f) with
-  | Some ts => OK (map SSet ts)
-  | None =>
-    match parse_rgb_string f with
-    | RTexts ts => OK (map SSet ts)
-    | RBad => Err ValueError
-    | RNoMatch =>
-      if is_nil f then OK []
-      else match parse_int f with
-           | Some z => do i <- scrub_int z; OK [i]
-           | None => Err ValueError end
-    end
-  end.
-
-Lemma scrub_names_cons f r :
-  scrub_names (f :: r) = do here <- scrub_name1 f; do rest <- scrub_names r; OK (here ++ rest).
-Proof. reflexivity. Qed.
-
-Lemma scrub_names_one f : scrub_names [f] = scrub_name1 f.
-Proof. rewrite scrub_names_cons. cbn [scrub_names bind]. apply bind_ret. Qed.
-
+(* scrub_name1, scrub_names_cons and scrub_names_one: see section 3 *)
 Lemma scrub_string_names (s : str) :
   starts_with s [LBR] = false -> scrub_string s = scrub_names (split_char SEMI s).
 Proof.
@@ -650,14 +776,35 @@ Theorem scrub_directive s : part_ok s ->
   scrub (FStr s) = do items <- scrub_name1 s; group_ints items [].
 Proof. intros H. rewrite scrub_single by reflexivity. now rewrite scrub_form_str_part. Qed.
 
-(* unknown name: not a member after normalisation, not an rgb()/color256() string, not an int *)
+(* unknown name: not a member after normalisation, not an rgb()/color256() string, and not a code, i.e.
+   its stripped text is not a non-empty string of decimal digits.  (Before the repair F37 the last
+   hypothesis read "parse_int s = None": whatever int() accepted was taken.  That form still holds and
+   is the weaker corollary scrub_unknown_name_no_int below.) *)
 Theorem scrub_unknown_name s : part_ok s -> s <> [] ->
-  member_texts (norm_name s) = None -> parse_rgb_string s = RNoMatch -> parse_int s = None ->
+  member_texts (norm_name s) = None -> parse_rgb_string s = RNoMatch -> decimal_code s = false ->
   scrub (FStr s) = Err ValueError.
 Proof.
-  intros Hp Hne Hm Hr Hi. rewrite scrub_directive by exact Hp. unfold scrub_name1.
-  rewrite Hm, Hr, Hi. destruct s; [congruence | reflexivity].
+  intros Hp Hne Hm Hr Hi. rewrite scrub_directive by exact Hp.
+  rewrite scrub_name1_not_code; auto. intros ts E. congruence.
 Qed.
+
+(* what int() refuses is no code *)
+Lemma parse_int_none_not_code s : parse_int s = None -> decimal_code s = false.
+Proof.
+  intros H. destruct (decimal_code s) eqn:E; [|reflexivity].
+  destruct (decimal_code_parse s E) as [_ E2]. congruence.
+Qed.
+(* nor is a negative number *)
+Lemma parse_int_neg_not_code s z : parse_int s = Some z -> z < 0 -> decimal_code s = false.
+Proof.
+  intros H Hz. destruct (decimal_code s) eqn:E; [|reflexivity].
+  destruct (decimal_code_parse s E) as [_ E2]. pose proof (code_value_nonneg s). rewrite E2 in H. injection H as <-. lia.
+Qed.
+
+Corollary scrub_unknown_name_no_int s : part_ok s -> s <> [] ->
+  member_texts (norm_name s) = None -> parse_rgb_string s = RNoMatch -> parse_int s = None ->
+  scrub (FStr s) = Err ValueError.
+Proof. intros Hp Hne Hm Hr Hi. apply scrub_unknown_name; auto. now apply parse_int_none_not_code. Qed.
 
 (* malformed rgb()/color256() string: the pattern matches but a number does not convert *)
 Theorem scrub_bad_rgb s : part_ok s ->
@@ -666,19 +813,19 @@ Proof.
   intros Hp Hm Hr. rewrite scrub_directive by exact Hp. unfold scrub_name1. now rewrite Hm, Hr.
 Qed.
 
-(* negative integer given as text *)
+(* negative integer given as text: since the repair F37 refused as an invalid NAME (the '-' is no digit),
+   no longer as a negative code; the exception is the same *)
 Theorem scrub_negative_text s z : part_ok s -> s <> [] ->
   member_texts (norm_name s) = None -> parse_rgb_string s = RNoMatch -> parse_int s = Some z -> z < 0 ->
   scrub (FStr s) = Err ValueError.
 Proof.
-  intros Hp Hne Hm Hr Hi Hz. rewrite scrub_directive by exact Hp. unfold scrub_name1.
-  rewrite Hm, Hr, Hi. unfold scrub_int. apply Z.ltb_lt in Hz. rewrite Hz. destruct s; [congruence | reflexivity].
+  intros Hp Hne Hm Hr Hi Hz. apply scrub_unknown_name; auto. now apply (parse_int_neg_not_code s z).
 Qed.
 
 Example scrub_unknown_name_ex :
   let s := S_ "boldd" in
   part_ok s /\ s <> [] /\ member_texts (norm_name s) = None /\ parse_rgb_string s = RNoMatch /\ parse_int s = None
-  /\ scrub (FStr s) = Err ValueError.
+  /\ decimal_code s = false /\ scrub (FStr s) = Err ValueError.
 Proof. cbv zeta. repeat split; try discriminate; vm_compute; reflexivity. Qed.
 Example scrub_bad_rgb_ex :
   let s := S_ "bg_rgb(ff,2,300)" in
@@ -689,9 +836,12 @@ Example scrub_negative_text_ex :
   part_ok s /\ s <> [] /\ member_texts (norm_name s) = None /\ parse_rgb_string s = RNoMatch /\ parse_int s = Some (-1)
   /\ scrub (FStr s) = Err ValueError.
 Proof. cbv zeta. repeat split; try discriminate; vm_compute; reflexivity. Qed.
-(* things that are NOT rejected (as in Python, via int()): surrounding blanks, '+', digit grouping '_' *)
+(* what is still NOT rejected: surrounding blanks and leading zeros.  The '+' and the digit-grouping '_'
+   that int() takes were accepted before the repair F37 ("+1" was bold, "1_0" code 10) and are refused now *)
 Example scrub_lenient_int_ex :
-  scrub (FStr (S_ " 1")) = OK [S_ "1"] /\ scrub (FStr (S_ "+1")) = OK [S_ "1"] /\ scrub (FStr (S_ "1_0")) = OK [S_ "10"].
+  scrub (FStr (S_ " 1")) = OK [S_ "1"] /\ scrub (FStr (S_ "007")) = OK [S_ "7"] /\
+  scrub (FStr (S_ "+1")) = Err ValueError /\ scrub (FStr (S_ "1_0")) = Err ValueError /\
+  parse_int (S_ "+1") = Some 1 /\ parse_int (S_ "1_0") = Some 10.
 Proof. repeat split; vm_compute; reflexivity. Qed.
 
 (* one bad directive anywhere in a ';'-separated string rejects the whole string *)
@@ -718,7 +868,8 @@ Lemma scrub_name1_err f e : scrub_name1 f = Err e -> e = ValueError.
 Proof.
   unfold scrub_name1. destruct (member_texts (norm_name f)); [discriminate|].
   destruct (parse_rgb_string f); [|congruence|discriminate].
-  destruct (is_nil f); [discriminate|]. destruct (parse_int f) as [z|]; [|congruence].
+  destruct (is_nil f); [discriminate|]. destruct (decimal_code f); [|congruence].
+  destruct (parse_int (strip_ws f)) as [z|]; [|congruence].
   unfold scrub_int. destruct (z <? 0); cbn [bind]; congruence.
 Qed.
 
@@ -729,6 +880,104 @@ Proof.
   - destruct (scrub_names r) as [b|e'']; cbn [bind]; [discriminate|]. intros H. injection H as ->. now apply IH.
   - intros H. injection H as ->. now apply scrub_name1_err in E1.
 Qed.
+
+(* C14-decimal (repair F37): inside a ';'-separated string, a part that is neither a member name nor an
+   rgb()/color256() string with convertible numbers, and whose stripped text is not a non-empty string of
+   decimal digits, makes scrub_names fail with ValueError ("invalid name") - wherever it stands, whatever
+   the other parts are.  Before the repair such a part went through Python's int(): "1_0" silently was
+   code 10, "+1" bold, "-0" reset, a full-width digit its value; "-3" was refused only as negative. *)
+Theorem scrub_names_lenient_int_rejected pre f post : f <> [] -> member_texts (norm_name f) = None ->
+  (forall ts, parse_rgb_string f <> RTexts ts) -> decimal_code f = false ->
+  scrub_names (pre ++ f :: post) = Err ValueError.
+Proof.
+  intros Hne Hm Hr Hc. induction pre as [|a pre IH]; cbn [app]; rewrite scrub_names_cons.
+  - now rewrite (scrub_name1_not_code f Hne Hm Hr Hc).
+  - destruct (scrub_name1 a) as [x|e] eqn:E; cbn [bind]; [now rewrite IH|].
+    apply scrub_name1_err in E. now subst.
+Qed.
+
+Example scrub_names_lenient_int_rejected_ex :
+  Forall (fun s => s <> [] /\ member_texts (norm_name s) = None /\ parse_rgb_string s = RNoMatch /\
+                   decimal_code s = false /\ scrub_names [s] = Err ValueError /\
+                   scrub_names ([S_ "bold"] ++ s :: [S_ "31"]) = Err ValueError /\
+                   scrub (FStr s) = Err ValueError)
+         [S_ "1_0"; S_ "+1"; S_ "-3"; S_ "-0"; [65297%N]; S_ "1 0"; S_ " "; S_ "0x1f"; S_ "1e2"] /\
+  decimal_code (S_ " 31 ") = true /\ scrub_names [S_ " 31 "] = OK [SInt 31] /\ scrub (FStr (S_ " 31 ")) = OK [S_ "31"] /\
+  decimal_code (S_ "007") = true /\ scrub_names [S_ "007"] = OK [SInt 7] /\ scrub (FStr (S_ "007")) = OK [S_ "7"] /\
+  scrub_names [S_ "bold"; S_ " 31 "; S_ ""; S_ "007"] = OK [SSet (S_ "1"); SInt 31; SInt 7] /\
+  (* what int() makes of the refused ones - and made of them before the repair *)
+  parse_int (S_ "1_0") = Some 10 /\ parse_int (S_ "+1") = Some 1 /\ parse_int (S_ "-3") = Some (-3) /\
+  parse_int (S_ "-0") = Some 0.
+Proof.
+  split.
+  - repeat (apply Forall_cons; [repeat split; try discriminate; vm_compute; reflexivity|]). apply Forall_nil.
+  - repeat split; vm_compute; reflexivity.
+Qed.
+
+(* a code - digits, possibly with leading zeros, possibly with blanks around - is the integer *)
+Lemma code_part_ok s : decimal_code s = true -> part_ok s.
+Proof.
+  intros H. split.
+  - unfold mem_char. destruct (existsb (N.eqb SEMI) s) eqn:E; [|reflexivity].
+    apply existsb_exists in E as (x & Hin & Hx).
+    destruct (code_char_props x (decimal_code_chars s H x Hin)) as (_ & _ & _ & Hs). congruence.
+  - destruct s as [|c r]; [reflexivity|]. cbn [starts_with].
+    destruct (code_char_props c (decimal_code_chars _ H c (or_introl eq_refl))) as (_ & _ & Hl & _).
+    now rewrite Hl.
+Qed.
+
+Theorem scrub_code_text s : decimal_code s = true ->
+  scrub (FStr s) = OK [dec (code_value s)] /\ scrub (FStr s) = scrub (FInt (code_value s)).
+Proof.
+  intros H. assert (E : scrub (FStr s) = OK [dec (code_value s)]).
+  { rewrite scrub_directive by now apply code_part_ok. rewrite (scrub_name1_code s H).
+    cbn [bind group_ints app is_nil map]. apply pgs_single. }
+  split; [exact E|]. rewrite E. symmetry. apply scrub_int_nonneg, code_value_nonneg.
+Qed.
+
+Lemma lstrip_ws_app_blanks w s : forallb is_ws w = true -> lstrip_ws (w ++ s) = lstrip_ws s.
+Proof.
+  induction w as [|c w IH]; [reflexivity|]. cbn [forallb app lstrip_ws]. intros H.
+  apply andb_true_iff in H as [Hc Hw]. rewrite Hc. now apply IH.
+Qed.
+
+Lemma strip_ws_padded w1 d w2 : forallb is_ws w1 = true -> forallb is_digit d = true -> d <> [] ->
+  forallb is_ws w2 = true -> strip_ws (w1 ++ d ++ w2) = d.
+Proof.
+  intros H1 Hd Hne H2. unfold strip_ws. rewrite (lstrip_ws_app_blanks w1 _ H1).
+  assert (E : lstrip_ws (d ++ w2) = d ++ w2).
+  { destruct d as [|c r]; [congruence|]. cbn [forallb] in Hd. apply andb_true_iff in Hd as [Hc _].
+    cbn [app lstrip_ws]. now rewrite (digit_not_ws c Hc). }
+  rewrite E, rev_app_distr, lstrip_ws_app_blanks by now rewrite forallb_rev.
+  rewrite lstrip_ws_digits by now rewrite forallb_rev. apply rev_involutive.
+Qed.
+
+Theorem scrub_padded_code w1 d w2 : forallb is_ws w1 = true -> forallb is_digit d = true -> d <> [] ->
+  forallb is_ws w2 = true ->
+  scrub (FStr (w1 ++ d ++ w2)) = OK [dec (Z.of_N (dval d 0))] /\
+  scrub (FStr (w1 ++ d ++ w2)) = scrub (FInt (Z.of_N (dval d 0))).
+Proof.
+  intros H1 Hd Hne H2. pose proof (strip_ws_padded w1 d w2 H1 Hd Hne H2) as Es.
+  assert (Hc : decimal_code (w1 ++ d ++ w2) = true) by (apply decimal_code_spec; rewrite Es; auto).
+  replace (Z.of_N (dval d 0)) with (code_value (w1 ++ d ++ w2)) by (unfold code_value; now rewrite Es).
+  now apply scrub_code_text.
+Qed.
+
+(* CAUTION, a gap between model and Python found while repairing this file: the blanks of the model
+   (Base.is_ws) are those str.strip() removes, INCLUDING the separators U+001C..U+001F; Python applies
+   str.strip() only for the digit test and then calls int() on the UNSTRIPPED directive, and int() does
+   not skip U+001C..U+001F (it skips 9-13, 32 and the non-ASCII blanks).  So for a directive like
+   "\x1c7" the model gives code 7 (Example below) while Python raises ValueError ("invalid name").
+   For blanks other than 28..31 the theorems above say what Python does. *)
+Example code_with_separator_blank_in_model :
+  decimal_code [28%N; 55%N] = true /\ scrub_names [[28%N; 55%N]] = OK [SInt 7] /\
+  scrub (FStr [28%N; 55%N]) = OK [S_ "7"].
+Proof. repeat split; vm_compute; reflexivity. Qed.
+Example scrub_padded_code_ex :
+  forallb is_ws (S_ "  ") = true /\ forallb is_digit (S_ "0031") = true /\ S_ "0031" <> [] /\
+  forallb is_ws [9%N; 10%N] = true /\ Z.of_N (dval (S_ "0031") 0) = 31 /\
+  scrub (FStr (S_ "  " ++ S_ "0031" ++ [9%N; 10%N])) = OK [S_ "31"].
+Proof. repeat split; try discriminate; vm_compute; reflexivity. Qed.
 
 Lemma leaf_type_error x : is_list x = false -> scrub_form x = Err TypeError -> exists b, x = FOther b.
 Proof.
@@ -1783,7 +2032,8 @@ Proof.
   - intros [= <-]. apply clean_sets. now apply (member_texts_valid _ _ Em).
   - destruct (parse_rgb_string f) as [| |ts] eqn:Er; [|discriminate|].
     + destruct (is_nil f); [intros [= <-]; constructor|].
-      destruct (parse_int f) as [z|]; [|discriminate]. unfold scrub_int.
+      destruct (decimal_code f); [|discriminate].
+      destruct (parse_int (strip_ws f)) as [z|]; [|discriminate]. unfold scrub_int.
       destruct (z <? 0) eqn:Ez; cbn [bind]; [discriminate|]. intros [= <-]. apply Z.ltb_ge in Ez. repeat constructor. exact Ez.
     + intros [= <-]. apply clean_sets. now apply (parse_rgb_valid f).
 Qed.
@@ -1989,18 +2239,7 @@ Proof. vm_compute. reflexivity. Qed.
 Definition int_char (x : char) : bool :=
   (is_digit x || (x =? CH_US) || (x =? CH_MINUS) || (x =? CH_PLUS))%N || is_ws x.
 
-Lemma lstrip_keeps (s : str) x : In x s -> is_ws x = false -> In x (lstrip_ws s).
-Proof.
-  induction s as [|c s IH]; [intros []|]. intros Hin Hx. cbn [lstrip_ws].
-  destruct (is_ws c) eqn:Ec; [|exact Hin].
-  destruct Hin as [->|Hin]; [congruence | now apply IH].
-Qed.
-Lemma strip_keeps (s : str) x : In x s -> is_ws x = false -> In x (strip_ws s).
-Proof.
-  intros Hin Hx. unfold strip_ws. apply in_rev. rewrite rev_involutive.
-  apply lstrip_keeps; [|exact Hx]. apply -> in_rev. now apply lstrip_keeps.
-Qed.
-
+(* lstrip_keeps, strip_keeps: section 3 *)
 Lemma digits_val_chars s : forall acc prev n, digits_val s acc prev = Some n ->
   forall x, In x s -> is_digit x = true \/ x = CH_US.
 Proof.
@@ -2039,9 +2278,21 @@ Proof.
   rewrite (parse_int_chars s z E x Hin) in Hx. discriminate.
 Qed.
 
+(* the test for a code (decimal_code, repair F37) is the stricter one: what a code may be written with,
+   int() takes too - but '_', '-' and '+' are no longer part of a code *)
+Lemma code_char_int_char x : code_char x = true -> int_char x = true.
+Proof.
+  unfold code_char, int_char. intros H. apply orb_true_iff in H as [H|H]; rewrite H; [reflexivity | apply orb_true_r].
+Qed.
+Example int_char_not_code_char :
+  int_char CH_US = true /\ code_char CH_US = false /\ int_char CH_MINUS = true /\ code_char CH_MINUS = false /\
+  int_char CH_PLUS = true /\ code_char CH_PLUS = false.
+Proof. repeat split; reflexivity. Qed.
+
 (* C14-reject: a directive that is not a member name after normalisation, contains no '(' and
-   contains a character that cannot occur in an integer (e.g. any letter) is rejected *)
-Theorem scrub_unknown_word s x : part_ok s -> ~ In 40%N s -> In x s -> int_char x = false ->
+   contains a character that is neither a decimal digit nor a blank (any letter - and, since the repair
+   F37, also '_', '+' and '-': the hypothesis was "int_char x = false" before) is rejected *)
+Theorem scrub_unknown_word s x : part_ok s -> ~ In 40%N s -> In x s -> code_char x = false ->
   ~ In (norm_name s) names -> scrub (FStr s) = Err ValueError.
 Proof.
   intros Hp Hparen Hin Hx Hnm. apply scrub_unknown_name; auto.
@@ -2049,45 +2300,103 @@ Proof.
   - destruct (member_texts (norm_name s)) as [ts|] eqn:E; [|reflexivity]. exfalso. apply Hnm.
     now apply (member_in_names _ ts).
   - now apply parse_rgb_needs_paren.
-  - now apply (parse_int_none s x).
+  - now apply (not_decimal_code s x).
+Qed.
+
+(* the statement as it stood before the repair follows *)
+Corollary scrub_unknown_word_int_char s x : part_ok s -> ~ In 40%N s -> In x s -> int_char x = false ->
+  ~ In (norm_name s) names -> scrub (FStr s) = Err ValueError.
+Proof.
+  intros Hp Hparen Hin Hx Hnm. apply (scrub_unknown_word s x); auto.
+  destruct (code_char x) eqn:E; [|reflexivity]. rewrite (code_char_int_char x E) in Hx. discriminate.
+Qed.
+
+Lemma not_in_by_existsb (c : char) (s : str) : existsb (N.eqb c) s = false -> ~ In c s.
+Proof.
+  intros E H. assert (E' : existsb (N.eqb c) s = true) by (apply existsb_exists; exists c; split; [exact H | apply N.eqb_refl]).
+  congruence.
+Qed.
+Lemma not_name_by_existsb (n : str) : existsb (str_eqb n) names = false -> ~ In n names.
+Proof.
+  intros E H. assert (E' : existsb (str_eqb n) names = true) by (apply existsb_exists; exists n; split; [exact H | apply str_eqb_refl]).
+  congruence.
 Qed.
 
 Example scrub_unknown_word_ex :
   let s := S_ "fg_redd" in
-  part_ok s /\ ~ In 40%N s /\ In 102%N s /\ int_char 102%N = false /\ ~ In (norm_name s) names /\
-  scrub (FStr s) = Err ValueError.
+  part_ok s /\ ~ In 40%N s /\ In 102%N s /\ code_char 102%N = false /\ int_char 102%N = false /\
+  ~ In (norm_name s) names /\ scrub (FStr s) = Err ValueError.
 Proof.
-  cbv zeta. split; [split; vm_compute; reflexivity|]. split.
-  { intros H. assert (E : existsb (N.eqb 40%N) (S_ "fg_redd") = true) by (apply existsb_exists; exists 40%N; split; [exact H | reflexivity]).
-    vm_compute in E. discriminate. }
-  split; [vm_compute; tauto|]. split; [reflexivity|]. split; [|vm_compute; reflexivity].
-  intros H. assert (E : existsb (str_eqb (norm_name (S_ "fg_redd"))) names = true).
-  { apply existsb_exists. eexists. split; [exact H|]. apply str_eqb_refl. }
-  vm_compute in E. discriminate.
+  cbv zeta. split; [split; vm_compute; reflexivity|]. split; [apply not_in_by_existsb; vm_compute; reflexivity|].
+  split; [vm_compute; tauto|]. split; [reflexivity|]. split; [reflexivity|]. split; [|vm_compute; reflexivity].
+  apply not_name_by_existsb. vm_compute. reflexivity.
+Qed.
+(* new since the repair: an underscore between digits *)
+Example scrub_unknown_word_ex2 :
+  let s := S_ "1_0" in
+  part_ok s /\ ~ In 40%N s /\ In CH_US s /\ code_char CH_US = false /\ int_char CH_US = true /\
+  ~ In (norm_name s) names /\ scrub (FStr s) = Err ValueError.
+Proof.
+  cbv zeta. split; [split; vm_compute; reflexivity|]. split; [apply not_in_by_existsb; vm_compute; reflexivity|].
+  split; [vm_compute; tauto|]. split; [reflexivity|]. split; [reflexivity|]. split; [|vm_compute; reflexivity].
+  apply not_name_by_existsb. vm_compute. reflexivity.
 Qed.
 
 (* a directive is accepted exactly when it is a member name, an rgb()/color256() string with
-   convertible numbers, empty, or a non-negative integer *)
+   convertible numbers, empty, or a code: blanks, decimal digits (at least one), blanks.
+   (Before the repair F37 the last alternative read "exists z, parse_int s = Some z /\ 0 <= z", which is
+   no longer sufficient: Example directive_int_not_enough.) *)
 Theorem scrub_directive_ok_iff s : part_ok s ->
   ((exists r, scrub (FStr s) = OK r) <->
    (exists ts, member_texts (norm_name s) = Some ts) \/
    (member_texts (norm_name s) = None /\
     ((exists ts, parse_rgb_string s = RTexts ts) \/
-     (parse_rgb_string s = RNoMatch /\ (s = [] \/ exists z, parse_int s = Some z /\ 0 <= z))))).
+     (parse_rgb_string s = RNoMatch /\ (s = [] \/ decimal_code s = true))))).
 Proof.
-  intros Hp. rewrite scrub_directive by exact Hp. unfold scrub_name1. split.
-  - intros [r H]. destruct (member_texts (norm_name s)) as [ts|]; [left; eauto|]. right. split; [reflexivity|].
+  intros Hp. rewrite scrub_directive by exact Hp. split.
+  - unfold scrub_name1. intros [r H]. destruct (member_texts (norm_name s)) as [ts|]; [left; eauto|]. right. split; [reflexivity|].
     destruct (parse_rgb_string s) as [| |ts]; [|discriminate|left; eauto]. right. split; [reflexivity|].
     destruct s as [|c s']; [now left|]. right. cbn [is_nil] in H.
-    destruct (parse_int (c :: s')) as [z|]; [|discriminate]. exists z. split; [reflexivity|].
-    unfold scrub_int in H. destruct (z <? 0) eqn:Ez; [discriminate|]. now apply Z.ltb_ge in Ez.
-  - intros [[ts ->] | [-> [[ts ->] | [-> [-> | (z & -> & Hz)]]]]]; cbn [bind is_nil].
-    + rewrite group_ints_sets. eexists; reflexivity.
-    + rewrite group_ints_sets. eexists; reflexivity.
+    destruct (decimal_code (c :: s')); [reflexivity | discriminate].
+  - intros [[ts Hm] | [Hm [[ts Hr] | [Hr [-> | Hc]]]]].
+    + unfold scrub_name1. rewrite Hm. cbn [bind]. rewrite group_ints_sets. eexists; reflexivity.
+    + unfold scrub_name1. rewrite Hm, Hr. cbn [bind]. rewrite group_ints_sets. eexists; reflexivity.
     + eexists; reflexivity.
-    + unfold scrub_int. apply Z.ltb_ge in Hz. rewrite Hz. cbn [bind].
-      destruct s; cbn [is_nil bind]; [eexists; reflexivity|]. apply group_ints_ok.
+    + rewrite (scrub_name1_code s Hc). cbn [bind]. apply group_ints_ok.
 Qed.
+
+(* ... and then the code is what is returned: the full case table of one directive *)
+Theorem scrub_directive_cases s : part_ok s ->
+  scrub (FStr s) =
+  match member_texts (norm_name s) with
+  | Some ts => OK ts
+  | None => match parse_rgb_string s with
+            | RTexts ts => OK ts
+            | RBad => Err ValueError
+            | RNoMatch => if is_nil s then OK []
+                          else if decimal_code s then OK [dec (code_value s)] else Err ValueError
+            end
+  end.
+Proof.
+  intros Hp. destruct (decimal_code s) eqn:Hc.
+  - destruct (scrub_code_text s Hc) as [-> _]. rewrite (code_not_member s Hc), (code_not_rgb s Hc).
+    destruct s; [discriminate | reflexivity].
+  - rewrite scrub_directive by exact Hp. unfold scrub_name1. rewrite Hc.
+    destruct (member_texts (norm_name s)) as [ts|]; [cbn [bind]; apply group_ints_sets|].
+    destruct (parse_rgb_string s) as [| |ts]; [|reflexivity|cbn [bind]; apply group_ints_sets].
+    destruct (is_nil s); reflexivity.
+Qed.
+
+Example directive_int_not_enough :
+  let s := S_ "+1" in
+  part_ok s /\ member_texts (norm_name s) = None /\ parse_rgb_string s = RNoMatch /\
+  parse_int s = Some 1 /\ 0 <= 1 /\ decimal_code s = false /\ scrub (FStr s) = Err ValueError.
+Proof. cbv zeta. repeat split; try lia; vm_compute; reflexivity. Qed.
+Example scrub_directive_ok_iff_ex :
+  part_ok (S_ " 31 ") /\ decimal_code (S_ " 31 ") = true /\ scrub (FStr (S_ " 31 ")) = OK [S_ "31"] /\
+  part_ok (S_ "fg red") /\ scrub (FStr (S_ "fg red")) = OK [S_ "31"] /\
+  part_ok [] /\ scrub (FStr []) = OK [].
+Proof. repeat split; vm_compute; reflexivity. Qed.
 
 (* ====================================================================================== *)
 Print Assumptions scrub_flatten.
@@ -2138,5 +2447,14 @@ Print Assumptions scrub_all_members_valid_parsable.
 Print Assumptions scrub_ext.
 Print Assumptions scrub_form_name_spelling.
 Print Assumptions parse_int_chars.
+Print Assumptions decimal_code_chars.
+Print Assumptions scrub_name1_code.
+Print Assumptions scrub_name1_not_code.
+Print Assumptions scrub_names_lenient_int_rejected.
+Print Assumptions scrub_code_text.
+Print Assumptions scrub_padded_code.
+Print Assumptions scrub_unknown_name_no_int.
 Print Assumptions scrub_unknown_word.
+Print Assumptions scrub_unknown_word_int_char.
 Print Assumptions scrub_directive_ok_iff.
+Print Assumptions scrub_directive_cases.
